@@ -190,6 +190,8 @@ class Check:
                 key = v["oid"].split("/opacity/")[0].split("::")[0]  # opacity units: one replay per module
             if "/guard/" in v["oid"]:
                 key = v["oid"].split("/guard/")[0]  # guard units: one replay per function
+            if v["oid"].startswith("c14run/"):
+                key = v["oid"].rsplit("/", 1)[0]  # one replay per pipeline configuration
             if "/ownership/" in v["oid"]:
                 key = v["oid"].split("/ownership/")[0]  # ownership units: one replay per subscribe function
             if "/frame-" in v["oid"]:
